@@ -14,6 +14,7 @@ the model's events; `mp.cpu_count` is patched to vary the pool size.
 """
 from __future__ import annotations
 
+import json
 import os
 import sys
 
@@ -59,17 +60,21 @@ EXPLANATION = ("Lean theorems about the object/mode model + differential check o
 PARALLEL = True
 
 KEYS = {"homogeneous": ["T_nuc", "t_nuc", "t_sol", "t_fr"],
-        "spatial_1D": ["T_nuc_min", "T_nuc_kin", "T_nuc_mean", "T_nuc_max", "t_nuc", "t_sol", "t_fr"]}
+        "spatial_1D": ["T_nuc_min", "T_nuc_kin", "T_nuc_mean", "T_nuc_max", "t_nuc", "t_sol", "t_fr"],
+        "spatial_2D": ["T_nuc_min", "T_nuc_kin", "T_nuc_mean", "T_nuc_max", "t_nuc", "t_sol", "t_fr"]}
 
 # configuration variants (custom YAML on top of the defaults)
 VARIANTS = {
     None: "",
     # vacuum-induced surface freezing on a tall vial (a 1D run takes ~2 s): the vacuum window
     # (30-36 min) is what triggers nucleation with program "V"
+    # wide, tall vial: the explicit 2D scheme runs at dt ~ 2 s, one run takes a few seconds
+    "wide": "vial:\n  geometry:\n    height: 0.08\n    diameter: 0.16\n",
     "visf": "vial:\n  geometry:\n    height: 0.08\nVISF:\n  t_vac_start: 0.5\n  t_vac_duration: 0.1\n",
 }
 
 PROGRAMS = {
+    "W": (dict(t_tot=1.1e4, cooling={"rate": 5 / 60, "start": 5, "end": -60}), 500),
     "V": (dict(t_tot=1.4e4, cooling={"rate": 1.0 / 60, "start": 20, "end": -50}), 400),
     "A": (dict(t_tot=3 * 3600, cooling={"rate": 0.5 / 60, "start": 20, "end": -50}), 50),
     "B": (dict(t_tot=2400, cooling={"rate": 3 / 60, "start": 10, "end": -50}), 200),
@@ -84,6 +89,8 @@ PROGRAMS = {
 # ---------------------------------------------------------------------------
 EVENTS = []
 _installed = [False]
+_PID = [None]     # the process that executes the case
+_WLOG = [None]    # file the forked pool workers log their generator calls to
 
 
 def _install():
@@ -97,12 +104,19 @@ def _install():
 
         def f(*a, **kw):
             if str(sys._getframe(1).f_globals.get("__name__", "")).startswith("ethz_snow"):
-                EVENTS.append(ev(a))
+                if os.getpid() == _PID[0]:
+                    EVENTS.append(ev(a))
+                elif _WLOG[0]:
+                    # a pool worker (forked from this process): log to the case's file
+                    with open(_WLOG[0], "a") as fh:
+                        fh.write(json.dumps({"pid": os.getpid(), "ev": ev(a)}) + "\n")
             return real(*a, **kw)
 
         setattr(np.random, name, f)
 
-    wrap("seed", lambda a: ["seed", int(a[0])])
+    # the ARGUMENT given to np.random.seed is observed as it is (an int, or the repr of anything else)
+    wrap("seed", lambda a: ["seed", int(a[0]) if isinstance(a[0], (int, np.integer)) and not isinstance(a[0], bool)
+                            else repr(a[0])])
     wrap("rand", lambda a: ["draw"])
     wrap("random", lambda a: ["draw"])
 
@@ -131,8 +145,11 @@ def _mk(case, nrep):
 
 
 def _single(S, case, seed):
-    f = S._run_0D if case["dim"] == "homogeneous" else S._run_1D
-    return [_bits(x) for x in f(seed=seed)]
+    f = {"homogeneous": S._run_0D, "spatial_1D": S._run_1D, "spatial_2D": S._run_2D}[case["dim"]]
+    r = f(seed=seed)
+    if isinstance(r, dict):   # a row may be returned positionally or by name
+        r = [r[k] for k in KEYS[case["dim"]]]
+    return [_bits(x) for x in r]
 
 
 def _bits(x):
@@ -154,8 +171,28 @@ def _world(w0, nrep):
     return "unknown"
 
 
+def _worker_tasks():
+    """generator calls made in pool workers during the last run, as one group of calls per task
+    (a worker runs its tasks one after the other; every task starts with a call of np.random.seed)"""
+    path, _WLOG[0] = _WLOG[0], None
+    if not path or not os.path.exists(path):
+        return []
+    per = {}
+    with open(path) as fh:
+        for line in fh:
+            r = json.loads(line)
+            per.setdefault(r["pid"], []).append(r["ev"])
+    os.remove(path)
+    groups = []
+    for evs in per.values():
+        for i in range(0, len(evs), 4):
+            groups.append(evs[i:i + 4])
+    return sorted(groups, key=json.dumps)
+
+
 def run_impl(case):
     _install()
+    _PID[0] = os.getpid()
     import ethz_snow.snowing as sn
 
     real_cpu = sn.mp.cpu_count
@@ -182,8 +219,13 @@ def run_impl(case):
                 out.append({})
             elif op[0] == "run":
                 try:
+                    d = core.VERIF / ".cache" / "c14"
+                    d.mkdir(parents=True, exist_ok=True)
+                    _WLOG[0] = str(d / f"wlog_{os.getpid()}.jsonl")
+                    if os.path.exists(_WLOG[0]):
+                        os.remove(_WLOG[0])
                     S.run(how=op[1])
-                    out.append({"evs": EVENTS[mark:]})
+                    out.append({"evs": EVENTS[mark:], "worker_tasks": _worker_tasks()})
                 except Exception as e:
                     out.append({"raise": core.exc_class(e)})
             else:
@@ -253,6 +295,11 @@ def compare(case, impl, model):
                 dis.append(f"op {i} {op}: implementation raised {a['raise']}")
             elif a["evs"] != b["evs"]:
                 dis.append(f"op {i} {op}: global-generator calls impl {a['evs'][:12]} vs model {b['evs'][:12]}")
+            else:
+                mg = sorted((l[j:j + 4] for l in b.get("worker_evs", []) for j in range(0, len(l), 4)), key=json.dumps)
+                if a["worker_tasks"] != mg:
+                    dis.append(f"op {i} {op}: generator calls in the pool workers, per task: impl {a['worker_tasks'][:4]} "
+                               f"vs model {mg[:4]}")
         else:
             if ("raise" in a) != ("raise" in b) or ("raise" in a and a["raise"] != b["raise"]):
                 dis.append(f"op {i} results: impl {a.get('raise', 'table')} vs model {b.get('raise', 'table')}")
@@ -290,6 +337,13 @@ def predicates(case, impl):
             continue
         if op[0] == "run":
             last_how = op[1]
+            if "raise" not in a and op[1] == "async" and nrep > 1:
+                want = sorted(([["seed", 2024], ["draw"], ["seed", j], ["draw"]] for j in range(nrep)), key=json.dumps)
+                if a["worker_tasks"] != want:
+                    odd = [g for g in a["worker_tasks"] if g not in want][:2]
+                    out.append(Failure(clause="rep_is_seeded_run", key="seeding|Snowing.run|async",
+                                       detail=f"parallel run of Nrep={nrep}: the tasks do not seed the generator with "
+                                              f"2024 and with their repetition number i (an int): {odd}"))
             if "raise" in a:
                 out.append(Failure(clause="total", key=f"raises|Snowing.run|{last_how}|{a['raise']}",
                                    detail=f"run(how={last_how!r}) raises {a['raise']}"))
@@ -345,6 +399,11 @@ def cases(rng, tier):
     quick = tier == "quick"
     R = ["results"]
     progs = ["B", "C", "D"]
+    # 2D model, parallel: row i = _run_2D(seed=i) on a fresh object (and = the sequential table in thorough)
+    yield dict(dim="spatial_2D", cfg="wide", nrep=2, cpu=2, prog="W", ops=[["run", "async"], R], gstate=6, gdraws=1)
+    if not quick:
+        yield dict(dim="spatial_2D", cfg="wide", nrep=2, cpu=2, prog="W",
+                   ops=[["run", "sequential"], R, ["run", "async"], R], gstate=6, gdraws=1)
     # 1D model with vacuum-induced surface freezing: repeating a run on one object gives the same numbers, a
     # single run equals repetition 0 (fresh-object reference runs), also after raising Nrep on the used object
     yield dict(dim="spatial_1D", cfg="visf", nrep=1, cpu=2, prog="V", ops=[["run", "async"], R, ["run", "async"], R],
